@@ -239,10 +239,10 @@ def setup(ctx):
 def run(ctx):
     ctx.enumerate(ctx.p_grid, grid(ctx), name="exponent x coefficient-length x trailing-zeros x sign grid",
                   exhaustive=ctx.thorough())
-    ctx.forall(ctx.p_round, ctx.scale(20000, 600000))
-    ctx.forall(ctx.p_lit, ctx.scale(10000, 300000))
-    ctx.forall(ctx.p_xsd, ctx.scale(5000, 150000))
-    ctx.forall(ctx.p_arith, ctx.scale(15000, 450000))
+    ctx.forall(ctx.p_round, ctx.scale(20000, 3600000))
+    ctx.forall(ctx.p_lit, ctx.scale(10000, 1800000))
+    ctx.forall(ctx.p_xsd, ctx.scale(5000, 900000))
+    ctx.forall(ctx.p_arith, ctx.scale(15000, 2700000))
 
 
 if __name__ == "__main__":
